@@ -281,6 +281,28 @@ def enc_skey(sk) -> str:
     return f'(SKAtom N{name.decode()} {f} {inv})'
 
 
+def enc_content(rec) -> str:
+    parts = T.lst(f'(mkPart {T.bytes_(h)} {T.boolean(t)} {T.bytes_(b)})' for h, t, b in rec['parts'])
+    headers = T.lst(T.pair(T.bytes_(n), T.codepoints(v)) for n, v in rec['headers'])
+    sd = 'None' if rec['sdate'] is None else f'(Some {enc_date(rec["sdate"])})'
+    return (f'(mkContent {T.N(rec["size"])} {enc_date(rec["idate"])} {sd} {headers} {parts} '
+            f'{T.bytes_(rec["emailid"])} {T.bytes_(rec["threadid"])})')
+
+
+def content_key(rec):
+    return (rec['size'], rec['idate'], rec['sdate'], tuple(rec['headers']), tuple(rec['parts']),
+            rec['emailid'], rec['threadid'])
+
+
+def enc_entries(view) -> str:
+    return T.lst(T.pair(T.N(r['uid']), T.N(r['seq']), T.lst(T.bytes_(f) for f in r['flags']))
+                 for r in view)
+
+
+def enc_pool(pool: dict) -> str:
+    return T.lst(T.pair(T.N(uid), enc_content(rec)) for uid, rec in sorted(pool.items()))
+
+
 def enc_msg(rec) -> str:
     parts = T.lst(f'(mkPart {T.bytes_(h)} {T.boolean(t)} {T.bytes_(b)})' for h, t, b in rec['parts'])
     headers = T.lst(T.pair(T.bytes_(n), T.codepoints(v)) for n, v in rec['headers'])
@@ -528,7 +550,7 @@ class KeyGen:
             name = rng.choice(self.hnames + ['X-None', 'subject', 'from'])
             return ('HEADER', _name_case(rng, name), gen_needle(rng, self.hvals))
         if kind == 'FIELD':
-            return ('FIELD', rng.choice(FIELDS), gen_needle(rng, self.hvals))
+            return ('FIELD', rng.choice(FIELDS), '' if rng.random() < 0.1 else gen_needle(rng, self.hvals))
         if kind in ('BODY', 'TEXT'):
             return (kind, gen_needle(rng, self.texts))
         if kind == 'UID':
@@ -676,8 +698,10 @@ def oracle_record(raw_rec: dict) -> dict:
     if env.date and env.date.datetime is not None:
         dt = env.date.datetime
         sdate = (dt.year, dt.month, dt.day)
-    parts = [(bytes(p.header), p.body.content_type.maintype == 'text', bytes(p.body))
-             for p in content.walk()]
+    # the body of a part that is not text/* is never looked at (neither by the
+    # code nor by the model: p_text && ...), so its octets are left out
+    parts = [(bytes(p.header), True, bytes(p.body)) if p.body.content_type.maintype == 'text'
+             else (bytes(p.header), False, b'') for p in content.walk()]
     return {'uid': raw_rec['uid'], 'seq': raw_rec['seq'], 'flags': list(raw_rec['flags']),
             'size': raw_rec['size'], 'idate': idate_of(raw_rec['internaldate']), 'sdate': sdate,
             'headers': headers, 'parts': parts, 'emailid': raw_rec.get('emailid', b''),
